@@ -905,9 +905,10 @@ class Interp:
             a, b = self.val(st, args[0]), self.val(st, args[1])
             self.ret(st, dst, (a == b) if c.endswith("eq") else (a != b), nxt)
             return None
-        if c == "<State as PartialEq>::eq":
+        if c in ("<State as PartialEq>::eq", "<State as PartialEq>::ne", "<StreamAction as PartialEq>::eq", "<StreamAction as PartialEq>::ne"):
             # derived PartialEq on a field-less enum
-            self.ret(st, dst, self.val(st, args[0]).name == self.val(st, args[1]).name, nxt)
+            same = self.val(st, args[0]).name == self.val(st, args[1]).name
+            self.ret(st, dst, same if c.endswith("eq") else not same, nxt)
             return None
         if re.match(r"^Option::<\w+>::unwrap_or$", c):
             v = args[0]
@@ -938,6 +939,7 @@ class Interp:
                     total += len(e[1])
                 elif e[0] == "register":
                     total += e[2]
+            st.events.append(("consumer", total))
             self.ret(st, dst, Adt("ConsumingIovec", {"total": total}), nxt)
             return None
         if re.match(r"^<ConsumingIovec(<'_>)? as Deref(Mut)?>::deref(_mut)?$", c):
